@@ -23,6 +23,7 @@ DECLINED = ["'no later than its next scheduling point' as a timing statement",
             "allocation balance at finalize (structural part under C15/C18)"]
 ASSUMPTIONS = ["C02/C11 for the switch primitives"]
 RULES_DOC = dict(common.SHARED_DOC)
+RULES_DOC["X9"] = common.X9_DOC
 RULES_DOC["R6"] = "= C03.R1: a join returns only after it observed TERMINATED (a unit is never reported joined, and then freed or revived, while it is still running)"
 RULES_DOC["R7"] = "= C06.R1/R3/R4: every post-switch callback, including its cancel arm, leaves the blocked-unit counter balanced (a unit that terminates in a callback is not counted as blocked for ever)"
 RULES_DOC["R8"] = "= C01.R5: a unit cancelled in a yield-family callback is not pushed back (TERMINATED is final)"
@@ -332,6 +333,30 @@ def rule_R5(P, rep):
                 rep.ob("R5", "%s reaches the noreturn exit primitive with the calling ULT" % api, kind == "noret", _cshow(F, toks),
                        loc=F.file, site="%s/exits" % api)
         rep.need(n >= 1, "%s never exits" % api)
+        # the primary ULT is refused: terminating it would free the context main() runs on
+        from abtverif import ctrldep
+        for _b, i in F.calls({"ABTI_ythread_exit", "ABTI_ythread_exit_to_primary"}):
+            conds = ctrldep.conditions(F, i)
+            from .C15 import P_flag_value
+            prim = P_flag_value(P, F, "ABTI_THREAD_TYPE_PRIMARY")
+            rep.need(prim, "value of ABTI_THREAD_TYPE_PRIMARY not found")
+
+            def tests_primary(lab):
+                m_ = re.match(r"^(?:ABTI_thread::type|ABTI_ythread::thread\.type) & (\d+)$", lab)
+                return bool(m_) and (int(m_.group(1)) & prim) != 0
+            ok = any(tests_primary(lab) and val is not True for lab, val, a_ in conds)
+            rep.ob("R5", "%s refuses the primary ULT before it reaches the exit primitive" % api, ok,
+                   "no governing test of ABTI_thread::type against ABTI_THREAD_TYPE_PRIMARY (tests: %s)" %
+                   [lab for lab, _v, _a in conds if "type" in lab], loc=F.loc(i), site="%s/primary-guard" % api)
+
+
+def _type_macros(F, bid):
+    tc = F.blocks[bid].tc
+    out = set()
+    if tc is not None:
+        for j in F.descendants(tc):
+            out.update(m_ for m_ in (F.nodes[j].get("m") or ()) if m_.startswith("ABTI_THREAD_TYPE_"))
+    return out
 
 
 def rule_R10(P, rep):
@@ -375,6 +400,7 @@ def rule_R12(P, rep):
 
 
 def run(P, rep, tier):
+    common.rule_X9(P, rep, fields=[('ABTI_thread', 'request')])
     common.rule_X4(P, rep)
     common.run_shared(P, rep, which=("X1",))
     rule_R1(P, rep)
